@@ -658,6 +658,15 @@ pub struct UdpClient {
     /// keep the socket (and the SOCKS5 association with its control connection) open this long after the last exchange
     #[serde(default)]
     pub hold_ms: u16,
+    /// stay silent this long before datagram number `idle_at` (same socket, same association): longer than the 10 s after
+    /// which client and server forget an inactive UDP flow
+    #[serde(default)]
+    pub idle_ms: u32,
+    #[serde(default)]
+    pub idle_at: u8,
+    /// during the idle period keep sending datagrams that ask for no reply (send-only traffic), one per second
+    #[serde(default)]
+    pub idle_send_only: bool,
 }
 
 /// many UDP clients that stay open at the same time, and TCP connections made while they are
@@ -698,6 +707,19 @@ async fn run_udp_client(f: &'static Fx, idx: usize, c: UdpClient, hold_until: Op
         SocketAddr::from(([127, 0, 0, 1], f.lp_udp))
     };
     for (k, size) in c.sizes.iter().enumerate() {
+        if c.idle_ms > 0 && k == c.idle_at as usize {
+            let until = tokio::time::Instant::now() + Duration::from_millis(c.idle_ms as u64);
+            while tokio::time::Instant::now() < until {
+                if c.idle_send_only {
+                    // a datagram that asks for no reply (size 0 gets one copy back, so use 5 bytes with reply count 0)
+                    let mut d = [me.to_be_bytes().as_slice(), &0xffffu16.to_be_bytes()].concat();
+                    d.push(0);
+                    let w = if c.socks5 { rs::udp_datagram([0, 0], 0, &rs::Addr5::V4([127, 0, 0, 1]), f.udp_target_port, &d) } else { d };
+                    sock.send_to(&w, relay).await.map_err(|x| e("c01-harness", x.to_string()))?;
+                }
+                tokio::time::sleep(Duration::from_millis(1000)).await;
+            }
+        }
         // payload: 4-byte client id, 2-byte sequence, filler, last byte = replies wanted (when size allows)
         let size = *size as usize;
         let mut data: Vec<u8> = Vec::with_capacity(size);
@@ -819,7 +841,7 @@ pub fn check_crowd(case: &CrowdCase) -> Outcome {
         // go away runs into its 20 s limit
         let release = Arc::new(std::sync::atomic::AtomicBool::new(false));
         let udp: Vec<_> = (0..case.n_udp as usize)
-            .map(|i| tokio::spawn(run_udp_client(f, i, UdpClient { socks5: case.socks5, atyp: (i % 3) as u8, sizes: vec![16], replies: 1, targets: vec![], hold_ms: 0 }, Some(release.clone()))))
+            .map(|i| tokio::spawn(run_udp_client(f, i, UdpClient { socks5: case.socks5, atyp: (i % 3) as u8, sizes: vec![16], replies: 1, targets: vec![], hold_ms: 0, idle_ms: 0, idle_at: 0, idle_send_only: false }, Some(release.clone()))))
             .collect();
         // the exchanges take well under a second
         tokio::time::sleep(Duration::from_millis(1500)).await;
@@ -974,13 +996,28 @@ pub fn run(ctx: &Ctx, rep: &mut Report) {
         },
         check_crowd,
     );
+    // a local UDP client that pauses for longer than the 10 s after which client and server forget an inactive UDP flow,
+    // then goes on from the same socket (same association): its later exchanges must work like the first ones
+    ctx.enumerate(
+        rep,
+        "udp-idle-resume",
+        ctx.tier.pick(2, 6),
+        1,
+        |i| {
+            let idle_ms = [21_500u32, 12_000, 31_000][((i / 2) % 3) as usize];
+            let send_only = i % 2 == 1;
+            let mk = |socks5: bool, atyp: u8, replies: u8| UdpClient { socks5, atyp, sizes: vec![40, 3, 700, 40], replies, targets: vec![], hold_ms: 0, idle_ms, idle_at: 2, idle_send_only: send_only };
+            UdpCase { clients: vec![mk(false, 0, 1), mk(true, 0, 2), mk(true, 1, 1), mk(true, 2, 1), mk(false, 0, 3)] }
+        },
+        check_udp,
+    );
     ctx.prop(
         rep,
         "udp",
         ctx.tier.pick(480, 10_000),
         20,
         || {
-            let client = (any::<bool>(), 0u8..3, prop::collection::vec(prop::sample::select(vec![0u32, 1, 2, 3, 4, 7, 512, 1400, 8000, 60_000]), 1..5), 0u8..4, prop::collection::vec(0u8..2, 0..4)).prop_map(|(socks5, atyp, sizes, replies, targets)| UdpClient { socks5, atyp, sizes, replies, targets, hold_ms: 0 });
+            let client = (any::<bool>(), 0u8..3, prop::collection::vec(prop::sample::select(vec![0u32, 1, 2, 3, 4, 7, 512, 1400, 8000, 60_000]), 1..5), 0u8..4, prop::collection::vec(0u8..2, 0..4)).prop_map(|(socks5, atyp, sizes, replies, targets)| UdpClient { socks5, atyp, sizes, replies, targets, hold_ms: 0, idle_ms: 0, idle_at: 0, idle_send_only: false });
             prop::collection::vec(client, 1..=6).prop_map(|clients| UdpCase { clients })
         },
         check_udp,
